@@ -55,6 +55,8 @@ Shifts == {c \in (0 - ShiftMax)..ShiftMax : c % 2 = 0 /\ c # 0}
 (* Exact non-negative rationals <<num, den>>, always reduced, den > 0.       *)
 (* TLC integers are 32 bit and TLC reports overflow as an error, never       *)
 (* silently; all operations cancel common factors before multiplying.        *)
+(* Sequences are built with Append / \o so that TLC holds them as concrete   *)
+(* tuples (a function constructor would be re-evaluated at every access).    *)
 
 RECURSIVE GCD(_, _)
 GCD(a, b) == IF b = 0 THEN a ELSE GCD(b, a % b)
@@ -77,6 +79,8 @@ QMul(p, q) ==
 
 QDiv(p, q) == QMul(p, <<q[2], q[1]>>)                        \* q > 0
 
+QAdd(p, q) == LET L == LCM(p[2], q[2]) IN Q(p[1] * (L \div p[2]) + q[1] * (L \div q[2]), L)
+
 QLe(p, q) == p[1] * q[2] <= q[1] * p[2]                      \* only used on small operands
 
 \* order-independent sum of a sequence of rationals: common denominator first
@@ -93,60 +97,73 @@ QMaxTo(s, i) == IF i = 1 THEN s[1]
                 ELSE LET r == QMaxTo(s, i - 1) IN IF QLe(r, s[i]) THEN s[i] ELSE r
 QMax(s) == QMaxTo(s, Len(s))
 
-\* concatenation of a sequence of sequences (per-batch -> flat sample order)
-RECURSIVE FlatTo(_, _)
-FlatTo(x, t) == IF t = 0 THEN <<>> ELSE FlatTo(x, t - 1) \o x[t]
-Flat(x) == FlatTo(x, Len(x))
+RECURSIVE QScaleTo(_, _, _)                                  \* << s[1]/d, ..., s[i]/d >>
+QScaleTo(s, d, i) == IF i = 0 THEN <<>> ELSE Append(QScaleTo(s, d, i - 1), QDiv(s[i], d))
 
 ASSUME RationalSanity ==
     /\ QSum(<<<<1, 2>>, <<1, 3>>, <<1, 6>>>>) = One
+    /\ QAdd(<<1, 2>>, <<1, 3>>) = <<5, 6>>
     /\ QMul(<<3, 4>>, <<2, 9>>) = <<1, 6>>
     /\ QDiv(<<3, 4>>, <<3, 8>>) = <<2, 1>>
     /\ QPow2(-3) = <<1, 8>> /\ QPow2(0) = One /\ QPow2(4) = <<16, 1>>
     /\ QMax(<<<<1, 2>>, <<2, 3>>, <<3, 5>>>>) = <<2, 3>>
     /\ Q(0, 7) = Zero
+    /\ QScaleTo(<<<<1, 2>>, <<3, 2>>>>, <<2, 1>>, 2) = <<<<1, 4>>, <<3, 4>>>>
 
 -----------------------------------------------------------------------------
-(* The formula, in the shape of the code *)
-
-T(h) == Len(h)
+(* The formula, in the shape of the code.  Samples are kept in the flat      *)
+(* order of get_history("logl", flat=True): batch after batch.               *)
 
 RECURSIVE NTo(_, _)
 NTo(h, t) == IF t = 0 THEN 0 ELSE NTo(h, t - 1) + h[t].n
 NTot(h) == NTo(h, Len(h))                                    \* N_total = n_per_iter.sum()
+
+RECURSIVE FlatKsTo(_, _)
+FlatKsTo(h, t) == IF t = 0 THEN <<>> ELSE FlatKsTo(h, t - 1) \o h[t].ks
+FlatKs(h) == FlatKsTo(h, Len(h))                             \* logl_all
 
 \* b[s,t] = logl_s * beta_t - logz_t        (as an exponent of two; b*k is even)
 TermExp(bt, k) ==
     IF Variant = "NoLogZ" THEN (bt.b * k) \div 2
                           ELSE (bt.b * k) \div 2 - bt.m
 
-\* log_mixture_weights = log(n_per_iter) - log(N_total)
-MixWeight(h, t) ==
-    CASE Variant = "NoMixW" -> One
-      [] Variant = "MixT"   -> Q(h[t].n, T(h))
-      [] OTHER              -> Q(h[t].n, NTot(h))
+\* log_mixture_weights = log(n_per_iter) - log(N_total)   =  log(CoefNum / CoefDen)
+CoefNum(h, t) == IF Variant = "NoMixW" THEN 1 ELSE h[t].n
+CoefDen(h) ==
+    CASE Variant = "NoMixW" -> 1
+      [] Variant = "MixT"   -> Len(h)
+      [] OTHER              -> NTot(h)
 
-Component(h, t, k) == QMul(MixWeight(h, t), QPow2(TermExp(h[t], k)))
+\* The log-sum-exp: a common power of two 2^-Off is factored out of the row (the code factors out
+\* the row maximum), what remains is an integer sum.  B_s = MixInt / (CoefDen * 2^Off).
+Off == KMax + MMax + ShiftMax
 
-\* B_s = logaddexp.reduce(b_weighted, axis=1)
-Mixture(h, k) == QSum([t \in 1..T(h) |-> Component(h, t, k)])
+RECURSIVE MixIntTo(_, _, _)
+MixIntTo(h, k, t) ==
+    IF t = 0 THEN 0
+    ELSE MixIntTo(h, k, t - 1) + CoefNum(h, t) * 2 ^ (TermExp(h[t], k) + Off)
+MixInt(h, k) == MixIntTo(h, k, Len(h))
 
-MixAll(h) == [t \in 1..T(h) |-> [i \in 1..h[t].n |-> Mixture(h, h[t].ks[i])]]
+RECURSIVE MixSeqTo(_, _, _)
+MixSeqTo(h, ks, s) == IF s = 0 THEN <<>> ELSE Append(MixSeqTo(h, ks, s - 1), MixInt(h, ks[s]))
+MixAll(h) == LET ks == FlatKs(h) IN MixSeqTo(h, ks, Len(ks))
 
-\* logw = A - B   with A = logl * beta_final
-UnnormFrom(h, f, B) ==
-    [t \in 1..T(h) |-> [i \in 1..h[t].n |-> QDiv(QPow2((f * h[t].ks[i]) \div 2), B[t][i])]]
+\* logw = A - B   with A = logl * beta_final :   2^a * CoefDen * 2^Off / MixInt
+Weight(f, k, M, cd) ==
+    LET a == (f * k) \div 2
+    IN  IF a >= 0 THEN Q(cd * 2 ^ (Off + a), M)
+                  ELSE Q(cd * 2 ^ Off, M * 2 ^ (0 - a))
+
+RECURSIVE UnnormTo(_, _, _, _, _)
+UnnormTo(f, ks, B, cd, s) ==
+    IF s = 0 THEN <<>> ELSE Append(UnnormTo(f, ks, B, cd, s - 1), Weight(f, ks[s], B[s], cd))
+UnnormFrom(h, f, B) == LET ks == FlatKs(h) IN UnnormTo(f, ks, B, CoefDen(h), Len(ks))
 
 \* logz_new = logaddexp.reduce(logw) - log(logw.size)
-EvidFrom(h, ww) ==
-    LET fl == Flat(ww)
-    IN  QDiv(QSum(fl), QInt(IF Variant = "MeanT" THEN T(h) ELSE Len(fl)))
+EvidFrom(h, ww) == QDiv(QSum(ww), QInt(IF Variant = "MeanT" THEN Len(h) ELSE Len(ww)))
 
 \* logw - logaddexp.reduce(logw)
-NormFrom(ww) ==
-    LET fl == Flat(ww)
-        S  == IF Variant = "MaxNorm" THEN QMax(fl) ELSE QSum(fl)
-    IN  [t \in DOMAIN ww |-> [i \in DOMAIN ww[t] |-> QDiv(ww[t][i], S)]]
+NormFrom(ww) == QScaleTo(ww, IF Variant = "MaxNorm" THEN QMax(ww) ELSE QSum(ww), Len(ww))
 
 UnnormW(h, f) == UnnormFrom(h, f, MixAll(h))
 Evid(h, f)    == EvidFrom(h, UnnormW(h, f))
@@ -206,7 +223,7 @@ Next == Mix \/ (\E f \in Bfs : Weigh(f)) \/ Normalise
 Spec == Init /\ [][Next]_vars
 
 -----------------------------------------------------------------------------
-(* Properties (C04) - all evaluated on completed computations *)
+(* Properties (C04) - evaluated on completed computations *)
 
 Done == pc = "done"
 
@@ -217,43 +234,65 @@ TypeOK ==
     /\ Len(hist) \in Ts
     /\ \A t \in 1..Len(hist) : hist[t].n = Len(hist[t].ks)
     /\ IsQ(z)
-    /\ pc # "hist" => \A t \in 1..Len(hist) : \A i \in 1..hist[t].n : IsQ(mixB[t][i]) /\ mixB[t][i][1] > 0
+    /\ pc # "hist" => /\ Len(mixB) = NTot(hist)
+                      /\ \A s \in 1..Len(mixB) : mixB[s] > 0
     /\ Done => /\ bf \in Bfs
-               /\ \A t \in 1..Len(hist) : \A i \in 1..hist[t].n :
-                      /\ IsQ(w[t][i]) /\ w[t][i][1] > 0          \* finite and strictly positive
-                      /\ IsQ(W[t][i]) /\ W[t][i][1] > 0
+               /\ Len(w) = NTot(hist) /\ Len(W) = NTot(hist)
+               /\ \A s \in 1..Len(w) : /\ IsQ(w[s]) /\ w[s][1] > 0     \* finite and strictly positive
+                                       /\ IsQ(W[s]) /\ W[s][1] > 0
 
-\* The property text, as equations (cross-multiplied; no Variant here):
+\* The property text, as equations (cross-multiplied, plain rationals, no Variant, no scaling):
 \*   w_s * SUM_t (n_t/N) 2^(b_t k_s/2 - m_t) = 2^(bf k_s/2) ;  Z * N = SUM_s w_s ;  W_s * SUM_r w_r = w_s
+RECURSIVE DeclMixTo(_, _, _, _)
+DeclMixTo(h, k, N, t) ==
+    IF t = 0 THEN Zero
+    ELSE QAdd(DeclMixTo(h, k, N, t - 1), QMul(Q(h[t].n, N), QPow2((h[t].b * k) \div 2 - h[t].m)))
+
 Formula ==
     Done =>
         LET N  == NTot(hist)
-            Sw == QSum(Flat(w))
-        IN  /\ \A t \in 1..Len(hist) : \A i \in 1..hist[t].n :
-                 LET k == hist[t].ks[i]
-                     D == QSum([u \in 1..Len(hist) |->
-                                  QMul(Q(hist[u].n, N), QPow2((hist[u].b * k) \div 2 - hist[u].m))])
-                 IN  /\ QMul(w[t][i], D) = QPow2((bf * k) \div 2)
-                     /\ QMul(W[t][i], Sw) = w[t][i]
+            ks == FlatKs(hist)
+            Sw == QSum(w)
+        IN  /\ \A s \in 1..N :
+                 /\ QMul(w[s], DeclMixTo(hist, ks[s], N, Len(hist))) = QPow2((bf * ks[s]) \div 2)
+                 /\ QMul(W[s], Sw) = w[s]
             /\ QMul(z, QInt(N)) = Sw
 
 \* returned normalised weights sum to exactly one
-SumOne == Done => QSum(Flat(W)) = One
+SumOne == Done => QSum(W) = One
 
 \* the order of iterations is irrelevant: permuting the batches permutes the weights, Z unchanged
+RECURSIVE PermSeqTo(_, _, _)           \* << x[p[1]], ..., x[p[t]] >>
+PermSeqTo(x, p, t) == IF t = 0 THEN <<>> ELSE Append(PermSeqTo(x, p, t - 1), x[p[t]])
+
+\* per-batch slices of a flat per-sample sequence, permuted, concatenated again
+RECURSIVE StartTo(_, _)
+StartTo(h, t) == IF t = 1 THEN 0 ELSE StartTo(h, t - 1) + h[t - 1].n
+RECURSIVE PermFlatTo(_, _, _, _)
+PermFlatTo(x, h, p, t) ==
+    IF t = 0 THEN <<>>
+    ELSE PermFlatTo(x, h, p, t - 1) \o SubSeq(x, StartTo(h, p[t]) + 1, StartTo(h, p[t]) + h[p[t]].n)
+
 PermInvariant ==
     Done =>
         \A p \in Permutations(1..Len(hist)) :
-            LET h2 == [t \in 1..Len(hist) |-> hist[p[t]]]
-            IN  /\ NormW(h2, bf)   = [t \in 1..Len(hist) |-> W[p[t]]]
-                /\ UnnormW(h2, bf) = [t \in 1..Len(hist) |-> w[p[t]]]
-                /\ Evid(h2, bf)    = z
+            (\E t \in 1..Len(hist) : p[t] # t) =>
+                LET h2 == PermSeqTo(hist, p, Len(hist))
+                IN  /\ NormW(h2, bf) = PermFlatTo(W, hist, p, Len(hist))
+                    /\ Evid(h2, bf)  = z
 
 \* rescaling the likelihood by 2^c (logL + c ln2, hence logZ_t + beta_t c ln2):
 \* same normalised weights, evidence multiplied by 2^(bf c / 2)
-ShiftHist(h, c) ==
-    [t \in 1..Len(h) |-> [h[t] EXCEPT !.ks = [i \in 1..h[t].n |-> h[t].ks[i] + c],
-                                      !.m  = h[t].m + (h[t].b * c) \div 2]]
+RECURSIVE AddTo(_, _, _)
+AddTo(ks, c, i) == IF i = 0 THEN <<>> ELSE Append(AddTo(ks, c, i - 1), ks[i] + c)
+
+RECURSIVE ShiftTo(_, _, _)
+ShiftTo(h, c, t) ==
+    IF t = 0 THEN <<>>
+    ELSE Append(ShiftTo(h, c, t - 1),
+                [n |-> h[t].n, b |-> h[t].b, m |-> h[t].m + (h[t].b * c) \div 2,
+                 ks |-> AddTo(h[t].ks, c, h[t].n)])
+ShiftHist(h, c) == ShiftTo(h, c, Len(h))
 
 ShiftInvariant ==
     Done =>
@@ -265,38 +304,56 @@ ShiftInvariant ==
 \* the mixture only sees (beta_t, logZ_t, n_t/N): splitting a batch into two batches with the
 \* same temperature and evidence changes nothing (this is what "batch-size weighted" means)
 SplitHist(h, t, j) ==
-    [u \in 1..(Len(h) + 1) |->
-        IF u < t THEN h[u]
-        ELSE IF u = t     THEN [h[t] EXCEPT !.n = j, !.ks = SubSeq(h[t].ks, 1, j)]
-        ELSE IF u = t + 1 THEN [h[t] EXCEPT !.n = h[t].n - j, !.ks = SubSeq(h[t].ks, j + 1, h[t].n)]
-        ELSE h[u - 1]]
+    SubSeq(h, 1, t - 1)
+    \o << [n |-> j,          b |-> h[t].b, m |-> h[t].m, ks |-> SubSeq(h[t].ks, 1, j)],
+          [n |-> h[t].n - j, b |-> h[t].b, m |-> h[t].m, ks |-> SubSeq(h[t].ks, j + 1, h[t].n)] >>
+    \o SubSeq(h, t + 1, Len(h))
 
 SplitInvariant ==
     Done =>
         \A t \in 1..Len(hist) : \A j \in 1..(hist[t].n - 1) :
             LET h2 == SplitHist(hist, t, j)
-            IN  /\ Flat(NormW(h2, bf)) = Flat(W)
-                /\ Evid(h2, bf) = z
+            IN  /\ NormW(h2, bf) = W
+                /\ Evid(h2, bf)  = z
 
 \* T = 1 degenerates to self-normalised importance sampling from the tempered batch:
 \*   w_s = 2^m 2^((bf-b)k_s/2),  W_s proportional to 2^((bf-b)k_s/2),  Z = 2^m * mean_s 2^((bf-b)k_s/2)
+RECURSIVE RatioTo(_, _, _)
+RatioTo(h1, f, i) ==
+    IF i = 0 THEN <<>> ELSE Append(RatioTo(h1, f, i - 1), QPow2(((f - h1.b) * h1.ks[i]) \div 2))
+
 SingleBatchSNIS ==
     (Done /\ Len(hist) = 1) =>
         LET h == hist[1]
-            r == [i \in 1..h.n |-> QPow2(((bf - h.b) * h.ks[i]) \div 2)]
+            r == RatioTo(h, bf, h.n)
             R == QSum(r)
-        IN  /\ \A i \in 1..h.n : /\ w[1][i] = QMul(QPow2(h.m), r[i])
-                                 /\ QMul(W[1][i], R) = r[i]
+        IN  /\ \A i \in 1..h.n : /\ w[i] = QMul(QPow2(h.m), r[i])
+                                 /\ QMul(W[i], R) = r[i]
             /\ z = QMul(QPow2(h.m), QDiv(R, QInt(h.n)))
 
-\* dominant-term enclosure of the mixture: max_t c_t <= SUM_t c_t <= T * max_t c_t
-\* (the oracle of the +-1e6 spread family of the binding, where the sum cannot be formed exactly)
+\* dominant-term enclosure of the mixture (c_(1) >= c_(2) >= ... the components in decreasing order):
+\*     c_(1)  <=  SUM_t c_t  <=  c_(1) + (T-1) c_(2)  <=  T c_(1)
+\* This is the oracle of the +-1e6 spread family of the binding, where the sum cannot be formed exactly.
+RECURSIVE TermsTo(_, _, _)
+TermsTo(h, k, t) ==
+    IF t = 0 THEN <<>>
+    ELSE Append(TermsTo(h, k, t - 1), CoefNum(h, t) * 2 ^ (TermExp(h[t], k) + Off))
+
+RECURSIVE IntMaxTo(_, _, _)            \* max of seq[1..i] skipping index `skip` (0 if nothing is left)
+IntMaxTo(seq, skip, i) ==
+    IF i = 0 THEN 0
+    ELSE LET r == IntMaxTo(seq, skip, i - 1) IN IF i # skip /\ seq[i] > r THEN seq[i] ELSE r
+
 Enclosure ==
     pc # "hist" =>
-        \A t \in 1..Len(hist) : \A i \in 1..hist[t].n :
-            LET cs == [u \in 1..Len(hist) |-> Component(hist, u, hist[t].ks[i])]
-                mx == QMax(cs)
-            IN  /\ QLe(mx, mixB[t][i])
-                /\ QLe(mixB[t][i], QMul(QInt(Len(hist)), mx))
+        LET ks == FlatKs(hist)
+        IN  \A s \in 1..Len(ks) :
+                LET cs == TermsTo(hist, ks[s], Len(hist))
+                    mx == IntMaxTo(cs, 0, Len(cs))
+                    am == CHOOSE i \in 1..Len(cs) : cs[i] = mx
+                    m2 == IntMaxTo(cs, am, Len(cs))
+                IN  /\ mx <= mixB[s]
+                    /\ mixB[s] <= mx + (Len(cs) - 1) * m2
+                    /\ mx + (Len(cs) - 1) * m2 <= Len(cs) * mx
 
 =============================================================================
